@@ -618,22 +618,27 @@ def c06_edit_histories(sched_kind, balance, acc):
 def c06_clock(sc, acc):
     """(d) forward: all clock schedules with values <= project start give the same schedule."""
     S = MON + LY.H9
-    sc2 = Scenario('fwd', sc.balance, S, sc.tasks, sc.links, {'A': 'none'}, sc.dflt, None, layer='L4clock')
-    menu = [S - 30 * DAY, S - DAY, seams.midnight(S), S - timedelta(hours=1), S]
-    seen = {}
-    for start_pos in range(len(menu)):
-        def run(ch):
-            return c06_one(sc2, acc, clock_menu_=menu, chooser=ch, start_pos=start_pos)
-        for choices, trace, r in choice.explore(run, 2):
-            acc.count('choice_points', len(trace))
-            if r is None:
-                continue
-            acc.count('premise:clock-at-or-before-start')
-            seen.setdefault(r[0], (start_pos, choices))
-    if len(seen) > 1:
-        V, _ = _mk_V(acc, 'C06', sc2, {'clock_menu': [m.isoformat() for m in menu],
-                                       'distinct_results': [list(map(str, v)) for v in seen.values()]})
-        V('forward-result-depends-on-clock-before-start', '-', f'{len(seen)} different schedules over clock histories at or before the project start')
+    variants = [sc.tasks]
+    if all(a.get('estimate', 4) == 4 for _, _, a in sc.tasks):
+        # little work: the tasks end early in the day, before the time of day of the project start and of the clock
+        variants.append([(i, p_, dict(a, estimate=1) if 'estimate' in a else a) for i, p_, a in sc.tasks])
+    for tasks in variants:
+        sc2 = Scenario('fwd', sc.balance, S, tasks, sc.links, {'A': 'none'}, sc.dflt, None, layer='L4clock')
+        menu = [S - 30 * DAY, S - DAY, seams.midnight(S), S - timedelta(hours=1), S]
+        seen = {}
+        for start_pos in range(len(menu)):
+            def run(ch):
+                return c06_one(sc2, acc, clock_menu_=menu, chooser=ch, start_pos=start_pos)
+            for choices, trace, r in choice.explore(run, 2):
+                acc.count('choice_points', len(trace))
+                if r is None:
+                    continue
+                acc.count('premise:clock-at-or-before-start')
+                seen.setdefault(r[0], (start_pos, choices))
+        if len(seen) > 1:
+            V, _ = _mk_V(acc, 'C06', sc2, {'clock_menu': [m.isoformat() for m in menu],
+                                           'distinct_results': [list(map(str, v)) for v in seen.values()][:3]})
+            V('forward-result-depends-on-clock-before-start', '-', f'{len(seen)} different schedules over clock histories at or before the project start')
 
 
 def _c06_layers(tier):
